@@ -185,9 +185,12 @@ func Compare(e exif2.Exif, r *gen.Record, c Ctx) []string {
 		bad("ISOSpeed = %d, file says %d", e.ISOSpeed, u(r.ISO))
 	}
 	if r.Bias != nil {
-		want := int16(r.Bias[0]*256 + r.Bias[1])
-		if int16(e.ExposureBias) != want {
-			bad("ExposureBias = %#04x (%s), file says %d/%d (packed %#04x)", uint16(e.ExposureBias), e.ExposureBias, r.Bias[0], r.Bias[1], uint16(want))
+		// the reported value is a fraction n/d packed into 8 + 8 bits: it must equal the file's fraction (cross-multiplied;
+		// a reduced form is the same value), with a non-zero denominator unless the file's is zero
+		gn, gd := int64(int8(uint16(e.ExposureBias)>>8)), int64(uint8(uint16(e.ExposureBias)))
+		fn, fd := int64(r.Bias[0]), int64(r.Bias[1])
+		if gn*fd != fn*gd || (gd == 0) != (fd == 0) && fn != 0 {
+			bad("ExposureBias = %#04x (%s), file says %d/%d", uint16(e.ExposureBias), e.ExposureBias, r.Bias[0], r.Bias[1])
 		}
 	} else if e.ExposureBias != 0 {
 		bad("ExposureBias = %#04x but the tag is absent", uint16(e.ExposureBias))
